@@ -88,10 +88,12 @@ def dstep (d : DState) (toks : List String) : DState × List String :=
       ({ d with srv := some { cfg := ⟨w, h, pw != 0, u8 != 0, df⟩, now := 1000000000000 } }, ["ok"])
     | _, _, _, _, _ => (d, ["bad-op"])
   | none, _ => (d, ["bad-op"])
-  | some s, "conn" :: [id] =>
+  | some s, "conn" :: id :: tr =>
+    -- `conn N ws`: WebSocket transport; the RFB layer reads the same byte stream (transport
+    -- transparency is C09's theorem), so the model does not distinguish it
     match id.toNat? with
     | some i =>
-      if i ≥ 16 ∨ d.ever.contains i then (d, ["bad-op"]) else
+      if i ≥ 16 ∨ d.ever.contains i ∨ (tr ≠ [] ∧ tr ≠ ["ws"]) then (d, ["bad-op"]) else
       report { d with ever := insertSorted i d.ever } (s.connect i) []
     | none => (d, ["bad-op"])
   | some s, "send" :: id :: hx :: rest =>
